@@ -138,6 +138,7 @@ type c9Result struct {
 	Launched int         `json:"share_launch"`
 	Stats    c9Stats     `json:"stats"`
 	Error    string      `json:"error"`
+	Skipped  bool        `json:"skipped"`
 	// distrib
 	Returned     []bool  `json:"returned"`
 	AfterCancel  []int64 `json:"after_cancel"`
@@ -167,6 +168,7 @@ type c9Result struct {
 	Deadlock     bool   `json:"deadlock"`
 	DepthAtScan  int    `json:"depth_at_scan"`
 	WriterQueued bool   `json:"writer_queued"`
+	WriterRan    bool   `json:"writer_ran"`
 	Progress     string `json:"progress"`
 	Stacks       string `json:"stacks"`
 }
@@ -301,7 +303,7 @@ func (c *c9Ctl) step(i int) string {
 			t.done = true
 		}
 		return p
-	case <-time.After(10 * time.Second):
+	case <-time.After(5 * time.Second):
 		t.done = true
 		return "hang"
 	}
@@ -411,7 +413,9 @@ func c9RunSched(c c9Case) (res c9Result) {
 	// would only block the others.)  Only one thread runs at a time here, so a write-locked mutex
 	// means the publishing thread holds it.
 	publishGate := func() {
-		if atomic.LoadInt32(&draining) == 0 && c9ReaderCount(&rm.registeredDecoys.m) >= 0 {
+		// park only when the mutex is entirely free: a publisher that still holds a read lock must
+		// not be stopped either (writers would queue behind it and every later step would hang)
+		if atomic.LoadInt32(&draining) == 0 && c9ReaderCount(&rm.registeredDecoys.m) == 0 {
 			ctl.park("publish")
 		}
 	}
@@ -574,7 +578,7 @@ func c9RunSched(c c9Case) (res c9Result) {
 		evmu.Unlock()
 		res.Steps = append(res.Steps, obs)
 		if obs.Point == "hang" {
-			res.Error = "thread did not reach its next schedule point within 10s"
+			res.Error = "thread did not reach its next schedule point within 5s"
 			break
 		}
 	}
@@ -683,7 +687,7 @@ func c9RunDistrib(c c9Case) (res c9Result) {
 		returned := make(chan struct{})
 		go rm.HandleRegUpdates(ctx, regChan, wg)
 		go func() { wg.Wait(); close(returned) }()
-		time.Sleep(20 * time.Millisecond) // let the workers start
+		time.Sleep(40 * time.Millisecond) // let the workers start and reach their select
 
 		switch c.Scenario {
 		case "idle":
@@ -876,10 +880,18 @@ func c9RunLocktrace(c c9Case) (res c9Result) {
 	}()
 	// wait until the writer is queued behind the sweeper's read lock
 	dl := time.Now().Add(4 * time.Second)
+waitWriter:
 	for time.Now().Before(dl) {
 		if c9ReaderCount(m) < 0 {
 			res.WriterQueued = true
 			break
+		}
+		select {
+		case <-writerDone:
+			// the "writer" went through while the sweeper holds its read lock: it is not exclusive
+			res.WriterRan = true
+			break waitWriter
+		default:
 		}
 		time.Sleep(200 * time.Microsecond)
 	}
@@ -1271,6 +1283,7 @@ func TestVerifC09(t *testing.T) {
 		t.Fatal(err)
 	}
 	res := make([]c9Result, len(cases))
+	hangs := 0
 	for i, c := range cases {
 		func() {
 			defer func() {
@@ -1280,7 +1293,15 @@ func TestVerifC09(t *testing.T) {
 			}()
 			switch c.Mode {
 			case "sched":
+				if hangs >= 2 {
+					res[i].Error = "skipped: two earlier scenarios already hung"
+					res[i].Skipped = true
+					return
+				}
 				res[i] = c9RunSched(c)
+				if res[i].Error != "" {
+					hangs++
+				}
 			case "distrib":
 				res[i] = c9RunDistrib(c)
 			case "stress":
